@@ -1,5 +1,5 @@
 (** C02 - No task is lost or stuck: runnable work always gets run, jobs terminate. *)
-From HQ Require Import Base.Prelude Cluster.Types Cluster.Core Cluster.Reactor Cluster.Worker Cluster.Server Cluster.Sys Cluster.Monitors Cluster.ProofsJob Cluster.ProofsCore Cluster.ProofsMore.
+From HQ Require Import Base.Prelude Cluster.Types Cluster.Core Cluster.Reactor Cluster.Worker Cluster.Server Cluster.Sys Cluster.Monitors Cluster.ProofsJob Cluster.ProofsCore Cluster.ProofsMore Cluster.BijBase Cluster.BijFinal Cluster.BijWitness.
 From Coq Require Import ZArith.
 Local Open Scope N_scope.
 
@@ -17,5 +17,31 @@ Proof. exact auto_ids_exact. Qed.
 Theorem C02_ready_queue_sorted : forall es id p, qe_desc es -> qe_desc (qe_add es id p).
 Proof. exact qe_add_desc. Qed.
 
+(** "The set of unfinished tasks shown to the user for a job is always exactly the set of tasks the
+    scheduler knows about (no phantom and no orphan tasks)" - for EVERY history of the system model:
+    client requests, message deliveries in any order, scheduling rounds with any solver answer,
+    worker losses, task ends, timers. [op_wf]: a submit sends as many entries as explicit ids. *)
+Theorem C02_no_phantom_no_orphan : forall ops reserve maxfill s outs,
+  Forall op_wf ops -> run (init_sys reserve maxfill) ops = Ok (s, outs) ->
+  forall t, In t (map t_id (c_tasks (s_core s))) <->
+            exists j, find_job (h_jobs (s_hq s)) (fst t) = Some j /\
+                      (jt_find (j_tasks j) (snd t) = Some JW \/ jt_find (j_tasks j) (snd t) = Some JR).
+Proof. exact no_phantom_no_orphan. Qed.
+
+(** The hypotheses are met by a history that reaches a non-trivial state. *)
+Theorem C02_no_phantom_example : Forall op_wf good_ops /\ exists s outs, run (init_sys 0 2) good_ops = Ok (s, outs)
+  /\ map t_id (c_tasks (s_core s)) = [(1, 4); (1, 5); (1, 6); (2, 0)].
+Proof. exact (conj good_ops_wf good_ops_run). Qed.
+
+(** [op_wf] cannot be dropped (finding F26): a submit with three explicit ids and two entries is
+    accepted; the job shows three waiting tasks, the scheduler knows two. *)
+Theorem C02_ids_longer_than_entries_refuted : exists s outs j, run (init_sys 0 2) bad_ops = Ok (s, outs)
+  /\ find_job (h_jobs (s_hq s)) 1 = Some j /\ jt_find (j_tasks j) 6 = Some JW
+  /\ ~ In (1, 6) (map t_id (c_tasks (s_core s))).
+Proof. exact bad_ops_phantom. Qed.
+
+Print Assumptions C02_no_phantom_no_orphan.
+Print Assumptions C02_no_phantom_example.
+Print Assumptions C02_ids_longer_than_entries_refuted.
 Print Assumptions C02_auto_ids_no_phantoms.
 Print Assumptions C02_ready_queue_sorted.
